@@ -5,6 +5,7 @@ import (
 	"os"
 	"runtime"
 	"sync"
+	"time"
 )
 
 // cmdSelftest: "determinism [world profile nseeds]" runs each seed three times
@@ -48,7 +49,12 @@ func cmdSelftest(args []string) int {
 					defer wg.Done()
 					defer func() { <-sem }()
 					var hashes []string
-					for _, procs := range []string{"1", "4", "16"} {
+					for pi, procs := range []string{"1", "4", "16"} {
+						if pi == 2 && seed%5 == 0 {
+							// every fifth scenario: let the wall clock move on to another second, so that
+							// anything derived from file creation times would show up as a divergence
+							time.Sleep(1100 * time.Millisecond)
+						}
 						w, err := startWorker(bin, sc.UID, []string{"GOMAXPROCS=" + procs})
 						if err != nil {
 							fatal2("start worker: %v", err)
